@@ -10,7 +10,7 @@ import OpcuaModel.Gen.UacpDefaults
   (uasc/message.go), the send paths `sendAsyncWithTimeout` /
   `writeMessageChunks` and the receive-side checks in `Conn.Receive` and
   `SecureChannel.Receive` (uasc/secure_channel.go).  Code as it is, defects
-  included; the specification's reading of the same numbers is in the section
+  included (the zero-limit defect of the receive path was repaired, see findings.d/C06.txt); the specification's reading of the same numbers is in the section
   "specification side" below.
 -/
 namespace Opcua.Limits
@@ -91,17 +91,18 @@ inductive Verdict where
 /-- the receive loop over the chunks `(wire length, body length)` of one message,
     the last one final; `held` intermediate chunks stored so far, `sum` their body bytes.
     Chunk size against `ReceiveBufSize` first (`Conn.Receive`), then for an
-    intermediate chunk `len(s.chunks[reqID]) > MaxChunkCount` after appending, for the
-    final chunk `len(merged) > MaxMessageSize`.  The final chunk is not counted. -/
+    intermediate chunk `MaxChunkCount != 0 && len(s.chunks[reqID]) > MaxChunkCount` after
+    appending, for the final chunk `MaxMessageSize != 0 && len(merged) > MaxMessageSize`
+    (0 = no limit, Part 6 §7.1.2.3/4).  The final chunk is not counted. -/
 def recvLoop (v : Ack) : List (Int × Nat) → Nat → Nat → Verdict
   | [], _, _ => .ok
   | [(w, b)], _, sum =>
     if w > (v.rcv : Int) then .chunkTooLarge
-    else if sum + b > v.maxMsg then .messageTooLarge
+    else if v.maxMsg ≠ 0 ∧ sum + b > v.maxMsg then .messageTooLarge
     else .ok
   | (w, _b) :: rest, held, sum =>
     if w > (v.rcv : Int) then .chunkTooLarge
-    else if held + 1 > v.maxChunks then .tooManyChunks
+    else if v.maxChunks ≠ 0 ∧ held + 1 > v.maxChunks then .tooManyChunks
     else recvLoop v rest (held + 1) (sum + _b)
 
 /-- a side with connection limits `v` receives a message cut into `bodies` -/
